@@ -1,5 +1,6 @@
 import Driver.Sess
 import Driver.Concurrency
+import Driver.Cqe
 import Driver.Facet
 import Driver.Field
 import Driver.Keyword
@@ -12,6 +13,7 @@ open Driver
 
 def sessions : List (String × Sess) := [
   ("concurrency", ConcurrencyS.sess),
+  ("cqe", CqeS.sess),
   ("facet", FacetS.sess),
   ("field", FieldS.sess),
   ("keyword", KeywordS.sess),
